@@ -171,3 +171,62 @@ func VerifC06_DenseSolveOperandKinds() {
 	}
 	verifReach("end")
 }
+
+// VerifC06_UpdateKindsF (model F: IEEE values, arithmetic uninterpreted): the
+// same update applied with x given as a contiguous *VecDense and as a strided
+// *VecDense / Vector-only type yields BIT-IDENTICAL factors - the result
+// depends on the values of x only. Cheap where the exact-real identity is out
+// of the solver's reach (Cholesky update n >= 2: Drotg square roots).
+func VerifC06_UpdateKindsF() {
+	n := verifChoose("n", 1, verifParam("c06kfn", 3))
+	kind := verifChoose("xkind", 1, 2)
+	which := verifChoose("op", 0, 1)
+	verifC06stubCond()
+	xd := verifFloats("x", n)
+	alpha := verifFloat("alpha")
+	if which == 0 {
+		ud := verifFloats("u", n*n)
+		mk := func() *Cholesky {
+			c := &Cholesky{chol: NewTriDense(n, Upper, nil), cond: 1}
+			for i := 0; i < n; i++ {
+				for j := i; j < n; j++ {
+					c.chol.SetTri(i, j, ud[i*n+j])
+				}
+			}
+			return c
+		}
+		for i := 0; i < n; i++ {
+			verifAssume(ud[i*n+i] > 0)
+		}
+		verifAssume(alpha > 0)
+		c1, c2 := mk(), mk()
+		ok1 := c1.SymRankOne(c1, alpha, verifC06vec(0, "x", xd))
+		ok2 := c2.SymRankOne(c2, alpha, verifC06vec(kind, "x", xd))
+		verifAssert(ok1 == ok2, "SymRankOne: success does not depend on the representation of x")
+		if ok1 && ok2 {
+			for i := 0; i < n; i++ {
+				for j := i; j < n; j++ {
+					verifAssert(verifSame(c1.chol.At(i, j), c2.chol.At(i, j)), "SymRankOne: the updated factor does not depend on the representation of x")
+				}
+			}
+		}
+	} else {
+		yd := verifFloats("y", n)
+		fd := verifFloats("f", n*n)
+		mk := func() *LU {
+			lu := &LU{lu: NewDense(n, n, append([]float64(nil), fd...)), swaps: make([]int, n), piv: make([]int, n), cond: 1, ok: true}
+			for i := range lu.swaps {
+				lu.swaps[i] = i
+				lu.piv[i] = i
+			}
+			return lu
+		}
+		l1, l2 := mk(), mk()
+		l1.RankOne(l1, alpha, verifC06vec(0, "x", xd), verifC06vec(0, "y", yd))
+		l2.RankOne(l2, alpha, verifC06vec(kind, "x", xd), verifC06vec(3-kind, "y", yd))
+		for i := 0; i < n*n; i++ {
+			verifAssert(verifSame(l1.lu.mat.Data[i], l2.lu.mat.Data[i]), "LU.RankOne: the updated factors do not depend on the representation of x and y")
+		}
+	}
+	verifReach("end")
+}
